@@ -559,6 +559,11 @@ func runBrokerScenario(o *out, tag, replay string, gen func(r *rng) (plain, hook
 		for _, m := range mls {
 			o.emit(fmt.Sprintf("!C09.mux role=%s kind=%s", m.role, m.kind), m.impl, m.pred)
 		}
+		// peer closes mid-negotiation, multiplexed: the plugin closes its listener between the knock's ack and the stream
+		{
+			impl, pred := runMuxAcceptorClosesMid()
+			o.emit("!C09.mux role=server kind=acceptor-closes-mid", impl, pred)
+		}
 		// peer closes mid-negotiation: the listener is gone when the (blocking) dial is made
 		for dir := 0; dir < 2; dir++ {
 			impl, pred := runGonePeerDial(dir)
